@@ -448,4 +448,9 @@ example : (match resetCore [] (2 ^ 27) [0x28, 0xB5, 0x2F, 0xFD, 0x01, 0x00, 0x07
     | .replace st (.err (.dictNotProvided 7)) => st.header.dictId == some 7
     | _ => false) = true := by decide
 
+/-- the guard of `repeat_from_dict` in the SOURCE (operator extracted on every run) is the one the model uses
+(`if fromDict > dict.size then error`): a match may reach back to the FIRST byte of the dictionary content, not further -/
+theorem dict_reach_guard_is_the_models (fromDict dictSize : Nat) :
+    Gen.dictReachTooFar fromDict dictSize = decide (fromDict > dictSize) := rfl
+
 end Zstd.Props.C09
